@@ -631,7 +631,7 @@ func (x *g) isParam(name string) bool {
 }
 
 func (x *g) callName(s tsig) string {
-	if s.file == x.cur.file {
+	if s.file == x.cur.file || s.ns == x.cur.ns {
 		return "." + s.name
 	}
 	if al, ok := x.aliases[x.cur.file]; ok {
@@ -690,14 +690,12 @@ func (x *g) call(depth int) *Node {
 			}
 		}
 	}
-	dropped := false
 	for _, p := range s.params {
 		if !need[p.Name] && !(p.Optional && x.chance(0.3)) {
 			continue
 		}
-		if need[p.Name] && !dropped && len(n.Args) > 0 && x.o.DropRequired > 0 && x.chance(x.o.DropRequired) {
-			dropped = true
-			continue
+		if need[p.Name] && x.o.DropRequired > 0 && x.chance(x.o.DropRequired) {
+			continue // one or several required params are omitted: the compile error lists them and prints the call
 		}
 		if n.Data == "$m" {
 			continue
@@ -777,11 +775,12 @@ func (x *g) template(file int, ns, name string) *Template {
 	return t
 }
 
-// recursive returns a template that calls itself on a decreasing argument.
+// recursive returns a template that calls itself on a decreasing argument; whatever value the
+// argument has (a float, an infinity passed in by a chaos mutation), the depth stays below 50.
 func (x *g) recursive(name string) *Template {
 	return &Template{Name: name, Params: []Param{{Name: "n"}}, Body: []*Node{
 		{K: "print", E: "$n"},
-		{K: "if", E: "$n > 0", Body: []*Node{{K: "text", S: ","}, {K: "call", Tmpl: "." + name, Args: []*Arg{{Key: "n", E: "$n - 1"}}}}},
+		{K: "if", E: "$n > 0 and $n < 50", Body: []*Node{{K: "text", S: ","}, {K: "call", Tmpl: "." + name, Args: []*Arg{{Key: "n", E: "$n - 1"}}}}},
 	}}
 }
 
@@ -806,6 +805,14 @@ func Generate(seed uint64, o Opts) *Case {
 		case 2:
 			f.Autoescape = "contextual"
 		}
+		// now and then two files share a namespace but not its autoescape attribute
+		if i > 0 && x.chance(0.2) {
+			j := x.pick(i)
+			f.Namespace = files[j].Namespace
+			for f.Autoescape == files[j].Autoescape {
+				f.Autoescape = []string{"", "false", "true", "contextual"}[x.pick(4)]
+			}
+		}
 		files[i] = f
 		for j, n := 0, 1+x.pick(o.MaxTemplates); j < n; j++ {
 			slots = append(slots, slot{i, fmt.Sprintf("t%d", tn)})
@@ -815,12 +822,16 @@ func Generate(seed uint64, o Opts) *Case {
 	// aliases to later files
 	for i := 0; i < nf; i++ {
 		for j := i + 1; j < nf; j++ {
-			if x.chance(0.4) {
+			if x.chance(0.4) && files[j].Namespace != files[i].Namespace {
 				if x.aliases[i] == nil {
 					x.aliases[i] = map[string]string{}
 				}
-				x.aliases[i][fmt.Sprintf("f%d", j)] = files[j].Namespace
-				files[i].Aliases = append(files[i].Aliases, files[j].Namespace)
+				ns := files[j].Namespace
+				last := ns[strings.LastIndex(ns, ".")+1:]
+				if _, dup := x.aliases[i][last]; !dup {
+					x.aliases[i][last] = ns
+					files[i].Aliases = append(files[i].Aliases, ns)
+				}
 			}
 		}
 	}
